@@ -128,6 +128,17 @@ def main():
     an = [r for r in results if r["status"] == "analysed"]
     det = [r for r in an if r["own"] == "detected"]
     print("analysed %d / %d, detected by own property %d" % (len(an), len(results), len(det)))
+    rp = os.path.join(VERIF, "mutants", "RESULTS.json")
+    if args and os.path.exists(rp):
+        # a partial run replaces / adds its rows in the stored table (rows of the other changes keep the verdicts of the last full run)
+        old = json.load(open(rp))
+        by = {r["id"]: r for r in old["results"]}
+        for r in results:
+            by[r["id"]] = r
+        results = sorted(by.values(), key=lambda r: (r["origin"] != "catalogue", r["id"]))
+        an = [r for r in results if r["status"] == "analysed"]
+        det = [r for r in an if r["own"] == "detected"]
+        args = []
     if not args:
         head = subprocess.run(["git", "-C", "/repo", "rev-parse", "--short", "HEAD"], capture_output=True, text=True).stdout.strip()
         with open(os.path.join(VERIF, "mutants", "RESULTS.json"), "w") as f:
